@@ -23,6 +23,8 @@ type normalizer struct {
 	names  map[types.Object]string
 	nLocal int
 	out    []string
+	// subst: a local defined as `v := E` whose only later use is `&v`: that use is rendered as ptr(E)
+	subst map[types.Object][]string
 }
 
 // TwinName maps an identifier of the interface{} family to its generic twin's name.
@@ -169,6 +171,14 @@ func (n *normalizer) expr(e ast.Expr) {
 		n.emit(")")
 	case *ast.UnaryExpr:
 		if x.Op == token.AND {
+			if id, ok := x.X.(*ast.Ident); ok && n.subst != nil {
+				if toks, has := n.subst[n.info.ObjectOf(id)]; has {
+					n.emit("ptr(")
+					n.emit(toks...)
+					n.emit(")")
+					return
+				}
+			}
 			n.emit("ptr(")
 			n.expr(x.X)
 			n.emit(")")
@@ -380,6 +390,40 @@ func (n *normalizer) block(b *ast.BlockStmt) {
 				}
 			}
 		}
+		// idiom: v := E ; … exactly one later use of v in this block, namely &v (x = &v / f(&v))
+		if as, ok := stmts[i].(*ast.AssignStmt); ok && as.Tok == token.DEFINE && len(as.Lhs) == 1 && len(as.Rhs) == 1 && i+1 < len(stmts) {
+			if lhs, _ := as.Lhs[0].(*ast.Ident); lhs != nil && n.info.ObjectOf(lhs) != nil {
+				obj := n.info.ObjectOf(lhs)
+				uses, addr := 0, 0
+				for _, later := range stmts[i+1:] {
+					ast.Inspect(later, func(nd ast.Node) bool {
+						switch y := nd.(type) {
+						case *ast.UnaryExpr:
+							if id, isID := y.X.(*ast.Ident); isID && y.Op == token.AND && n.info.ObjectOf(id) == obj {
+								addr++
+							}
+						case *ast.Ident:
+							if n.info.ObjectOf(y) == obj {
+								uses++
+							}
+						}
+						return true
+					})
+				}
+				if uses == 1 && addr == 1 {
+					save := n.out
+					n.out = nil
+					n.expr(as.Rhs[0])
+					toks := n.out
+					n.out = save
+					if n.subst == nil {
+						n.subst = map[types.Object][]string{}
+					}
+					n.subst[obj] = toks
+					continue
+				}
+			}
+		}
 		n.stmt(stmts[i])
 	}
 	n.emit("}")
@@ -425,6 +469,18 @@ func (n *normalizer) stmt(s ast.Stmt) {
 			for _, sp := range gd.Specs {
 				if vs, ok := sp.(*ast.ValueSpec); ok {
 					for i, nm := range vs.Names {
+						if i < len(vs.Values) && len(vs.Names) == len(vs.Values) {
+							// `var x T = e` ≡ `x := e` (the declared type is part of what the duplication erases)
+							save := n.out
+							n.out = nil
+							n.expr(vs.Values[i])
+							rhs := n.out
+							n.out = save
+							n.emit(n.ident(nm), "=")
+							n.emit(rhs...)
+							n.emit(";")
+							continue
+						}
 						n.emit("var", n.ident(nm))
 						if i < len(vs.Values) {
 							n.emit("=")
